@@ -137,6 +137,41 @@ def sender_script(rng, name, variant):
     return {"name": name, "suite": 1, "members": members, "ops": ops, "sender_leaf": 1}
 
 
+def two_group_script(rng, name, storage, R):
+    """The member's storage holds TWO groups (the normal deployment): the main group stays in a low epoch
+    while a branch group of the same members runs far ahead and is written after every epoch.  The
+    retention window of the main group is its own: its late messages stay readable."""
+    members = [{"name": "A"}, {"name": "B"}, {"name": "C", "storage": storage, "retention": R}]
+    ops = [{"op": "create", "who": "A", "gid": "a1a1"}, {"op": "kp", "who": "B", "id": "kB"}, {"op": "kp", "who": "C", "id": "kC"},
+           {"op": "commit", "who": "A", "id": "c0", "add": ["kB", "kC"]}, {"op": "apply", "who": "A"},
+           {"op": "join", "who": "B", "welcome_any": "c0"}, {"op": "join", "who": "C", "welcome_any": "c0"}]
+    n_main = min(R, 2 + rng.below(2))
+    late = []
+    for e in range(1, n_main + 1):
+        ops.append({"op": "app", "who": "B", "id": f"m{e}", "data": "%02x" % e})
+        late.append(f"m{e}")
+        ops += [{"op": "commit", "who": "A", "id": f"c{e}"}, {"op": "apply", "who": "A"}, {"op": "deliver", "to": "B", "msg": f"c{e}"}, {"op": "deliver", "to": "C", "msg": f"c{e}"}]
+    ops.append({"op": "save", "who": "C"})
+    # the branch group
+    ops += [{"op": "kp", "who": "B", "id": "kB2"}, {"op": "kp", "who": "C", "id": "kC2"},
+            {"op": "branch", "who": "A", "id": "bc", "gid": "b2b2", "kps": ["kB2", "kC2"]},
+            {"op": "join_subgroup", "who": "B", "welcome_any": "bc", "tree": "bc.tree"}, {"op": "join_subgroup", "who": "C", "welcome_any": "bc", "tree": "bc.tree"}]
+    for n in "ABC":
+        ops.append({"op": "swap", "who": n})
+    for k in range(n_main + R + 2 + rng.below(3)):
+        ops += [{"op": "commit", "who": "A", "id": f"h{k}"}, {"op": "apply", "who": "A"}, {"op": "deliver", "to": "B", "msg": f"h{k}"}, {"op": "deliver", "to": "C", "msg": f"h{k}"}]
+        if rng.chance(3, 4):
+            ops.append({"op": "save", "who": "C"})
+    ops.append({"op": "save", "who": "C"})
+    for n in "ABC":
+        ops.append({"op": "swap", "who": n})
+    checks = []
+    for m in rng.shuffle(late):
+        ops.append({"op": "deliver", "to": "C", "msg": m})
+        checks.append(len(ops) - 1)
+    return {"name": name, "suite": 1, "members": members, "ops": ops}, checks
+
+
 def coq_eval(name, defs, expr):
     text = ("From Coq Require Import NArith List Bool.\nFrom MlsV Require Import Storage StorageCases StorageProofs.\nImport ListNotations.\nLocal Open Scope N_scope.\n"
             + defs + f"\nEval vm_compute in ({expr}).\n")
@@ -203,6 +238,19 @@ def main(run, args):
         models.append((st, R, model))
     variants = ["vacated", "reused", "control", "blank_left", "blank_left_vacated"] * (2 if quick else 8)
     sscripts = [sender_script(rng, f"c19-sender-{i}", v) for i, v in enumerate(variants)]
+    tg = [two_group_script(rng, f"c19-two-{i}", ["sqlite", "mem"][i % 2], rng.choice([2, 3, 5])) for i in range(4 if quick else 24)]
+    tg_recs = run_scripts([x[0] for x in tg], timeout=1500)
+    tg_n = 0
+    for (sc, checks), rs in zip(tg, tg_recs):
+        byi = {r["i"]: r for r in rs if "i" in r}
+        bad = [r for r in rs if (r.get("ok") is False and r["i"] not in checks) or r.get("crash")]
+        if bad:
+            failing.append({"what": "valid operation failed (two groups in one storage)", "script": sc["name"], "record": bad[0], "op": sc["ops"][bad[0].get("i", 0)]})
+            continue
+        for k in checks:
+            tg_n += 1
+            if not byi.get(k, {}).get("ok"):
+                failing.append({"what": "a late message of a retained epoch is not readable: the other group in the same storage, which is further ahead, took the epoch away", "script": sc["name"], "storage": sc["members"][2]["storage"], "retention": sc["members"][2]["retention"], "error": byi.get(k, {}).get("err"), "op": sc["ops"][k]})
     recs_all = run_scripts(scripts + sscripts, timeout=1500)
     late_cases = 0
     for (st, R, model), sc, rs in zip(models, scripts, recs_all[:len(scripts)]):
@@ -325,6 +373,7 @@ def main(run, args):
         "provider_sequences": len(seqs),
         "late_message_deliveries": late_cases,
         "sender_scenarios": len(sscripts),
+        "two_group_late_deliveries": tg_n,
         "compared_with_model_in_coq": coq_cases,
     })
     if failing:
